@@ -25,7 +25,7 @@ RULE = ("scan: generated age distributions over 0-5 mailboxes (incl. emptied one
         "the scanner's removals; a stream parks a delivery between its mailbox lookup and its mailbox lock across the removal "
         "that empties the mailbox (memory store, verifhook mem.wm.lock); "
         "a third cancels the context during the n-th callback (RetentionSleep 100 ms), a fourth does so with RetentionSleep 0 / 1 ns where the "
-        "select at the callback end is a race (any outcome of the model's alternatives is accepted); start: the run loop with period <= 0 and with cancellation. asm12: the assembled server (server.FullAssembly + Services.Start, child process) serves for 1.5 s a file store that already holds messages of mixed ages, with period 0 and positive periods: afterwards no unexpired message (period 0: no message at all) may be missing; the surviving messages are compared with what the run-loop model leaves after the seconds served. "
+        "select at the callback end is a race (any outcome of the model's alternatives is accepted); dlv: mail delivered through the real StoreManager.Deliver carrying its own Date: header (days / years in the past, in the future, missing, garbled), then DoScan: just-arrived mail must survive whatever the header says, and with a period of 1 s after 3 s of waiting all of it must go — arrival time decides (a real arrival cannot be aged further: the old-arrival half of the clause stays on the direct-store stream); start: the real Start with period <= 0, with cancellation before the first minute and (thorough) after its first scan, judged against the run-loop model. asm12: the assembled server (server.FullAssembly + Services.Start, child process) serves for 1.5 s a file store that already holds messages of mixed ages, with period 0 and positive periods: afterwards no unexpired message (period 0: no message at all) may be missing; the surviving messages are compared with what the run-loop model leaves after the seconds served. "
         "distinct = distinct input line; non-trivial = the store holds at least one message before the scan.")
 TRUSTED = [
     "the tie of the store models to the Go stores is C07's correspondence check (scan_over_store_models ties this property's model to those models); store operations are atomic (C09)",
@@ -49,6 +49,8 @@ EXEC_TIMEOUT = {"quick": 900, "thorough": 7200}
 
 
 def nontrivial(kind, ins, outs):
+    if kind == "dlv":
+        return True
     if kind == "scan":
         return any(b.split(":", 1)[1] for b in ins[2].split(";")) if ins[2] != "-" else False
     if kind == "start":
@@ -60,6 +62,13 @@ def nontrivial(kind, ins, outs):
 
 def shrink_candidates(inp):
     parts = inp.split(" ")
+    if parts[0] == "dlv":
+        ds = parts[4].split(",")
+        for i in range(len(ds)):
+            r = ds[:i] + ds[i + 1:]
+            if r:
+                yield " ".join(parts[:4] + [",".join(r)])
+        return
     if parts[0] != "scan":
         return
     kind, store, period, boxes, inj, cancel = parts
